@@ -10,7 +10,9 @@ ThreadWorker.run() under the scripted scheduler: work handed to the pool is hand
 connection that select() hands to the loop is acted upon, also when a pool thread reached the limit while the loop was polling
 (a request arriving on a connection accepted earlier).  E4 part: real servers of every worker class under sequential and concurrent
 load; every client outcome classified, requests counted per answering pid, pool size monitored; a request that needs seconds in
-flight when another one reaches the limit (gevent, eventlet, gthread); timeout = 0.
+flight when another one reaches the limit (gevent, eventlet, gthread) - also one that needs longer than `timeout`, which these
+classes serve in normal operation; persistent HTTP/1.1 clients whose requests wait in the threaded worker (more connections than
+threads) while the limit is reached: a connection declared open in a response is open for the next request; timeout = 0.
 """
 import json
 import os
